@@ -197,6 +197,8 @@ pub mod message_frame {
         pub fn message_number(&self) -> (r: Option<u16>) ensures r == self.sp_number(), { unimplemented!() }
         #[verifier::external_body]
         pub fn data(&'a self) -> (r: &'a [u8]) ensures r@ == self.sp_data(), { unimplemented!() }
+        #[verifier::external_body]
+        pub fn data_len(&self) -> (r: usize) ensures r == self.sp_data().len(), { unimplemented!() }    // unit frame: accessor obligations
     }
     // unit frame, obligations new.ok_number + new.ok_payload: number present iff payload has >= 2 bytes, and then it is its first 12 bits
     pub axiom fn axiom_frame_number(mf: &MessageFrame)
